@@ -999,7 +999,7 @@ func genMsgParse(c *Ctx) {
 	// levels below it: the cost must stay polynomial in the depth)
 	depths := []int{9, 10, 11, 33, 40, 64, 200}
 	if c.thorough() {
-		depths = append(depths, 700, 2000, 2700)
+		depths = append(depths, 400, 700) // (deeper frames decode in time quadratic in the depth: too close to the worker's time budget on a loaded machine)
 	}
 	for _, d := range depths {
 		fr := msgDeepCTFlowMod(d)
@@ -1008,6 +1008,20 @@ func genMsgParse(c *Ctx) {
 		c.decCase("parse", "", fr, 24)
 	}
 
+	// bundle-add (ONF experimenter 2301) around an echo request, followed by properties of every type class: the
+	// experimenter property (0xffff) and property types the library does not know (a parser must skip or reject them)
+	for _, pt := range []int{0, 1, 2, 0x7fff, 0xfffe, 0xffff} {
+		for _, pl := range []int{8, 12, 16, 24} {
+			for _, nprop := range []int{1, 2} {
+				x := nb().u32(0x4f4e4600, 2301, 100).u16(0, 1).u8(4, 2).u16(8).u32(0x12)
+				for k := 0; k < nprop; k++ {
+					x.u16(pt, pl).seq(0x40+k, pl-4)
+					x.z((8 - pl%8) % 8)
+				}
+				c.decCase("parse", "", ofFrame(4, 0x11, x.b), 0)
+			}
+		}
+	}
 	// packet-in carrying ARP with hardware / protocol address lengths other than 6 / 4 (EUI-64, InfiniBand, IPv6-sized)
 	for _, hl := range []int{0, 2, 6, 8, 20} {
 		for _, pl := range []int{4, 16} {
